@@ -70,8 +70,9 @@ pub struct StaticInfo {
     pub static_last: BTreeSet<usize>,
     /// Token ids of tree wildcards that are the first token of the whole expression.
     pub static_first: BTreeSet<usize>,
-    /// Token ids of tree wildcards at the first or last position (through nested branches) of the
-    /// body of a repetition that can iterate more than once.
+    /// Token ids of tree wildcards at the first (last) position, through nested branches, of the
+    /// body of a repetition that can iterate more than once and that itself begins (ends) the
+    /// whole expression through every enclosing branch.
     pub rep_edge: BTreeSet<usize>,
 }
 
@@ -128,17 +129,41 @@ pub fn static_info(ast: &Ast) -> StaticInfo {
             }
         }
     }
+    // The listed deviation: a tree wildcard at the edge of a repetition body is encoded in its
+    // expression-edge form in *every* iteration — but only when the repetition itself stands at
+    // that edge of the whole expression through every enclosing branch (otherwise the encoder
+    // composes a middle position and emits the intermediate form, which is right). Narrowed in
+    // round 7: marking every repetition body hid a seeded change (C10-H) behind this quirk.
+    fn reps(seq: &Seq, at_first: bool, at_last: bool, info: &mut StaticInfo) {
+        let n = seq.toks.len();
+        for (i, t) in seq.toks.iter().enumerate() {
+            let f = at_first && i == 0;
+            let l = at_last && i + 1 == n;
+            match &t.node {
+                Node::Alt(bs) => {
+                    for b in bs {
+                        reps(b, f, l, info);
+                    }
+                },
+                Node::Rep { body, hi, .. } => {
+                    if *hi != Some(1) {
+                        if f {
+                            edge(body, true, info);
+                        }
+                        if l {
+                            edge(body, false, info);
+                        }
+                    }
+                    reps(body, f, l, info);
+                },
+                _ => {},
+            }
+        }
+    }
     let mut info = StaticInfo::default();
     go(&ast.seq, &mut info);
     last(&ast.seq, &mut info);
-    ast.seq.walk(&mut |t, _| {
-        if let Node::Rep { body, hi, .. } = &t.node {
-            if *hi != Some(1) {
-                edge(body, true, &mut info);
-                edge(body, false, &mut info);
-            }
-        }
-    });
+    reps(&ast.seq, true, true, &mut info);
     info
 }
 
